@@ -1,0 +1,19 @@
+//go:build verif
+
+package chacha20poly1305
+
+// Hooks for /verif property C53 (buffer overlap): the portable Seal/Open paths, reachable in every build.
+
+// VerifC53SealGeneric calls sealGeneric (the portable path) directly.
+func VerifC53SealGeneric(key, dst, nonce, plaintext, additionalData []byte) []byte {
+	c := new(chacha20poly1305)
+	copy(c.key[:], key)
+	return c.sealGeneric(dst, nonce, plaintext, additionalData)
+}
+
+// VerifC53OpenGeneric calls openGeneric directly (caller guarantees len(ciphertext) >= 16).
+func VerifC53OpenGeneric(key, dst, nonce, ciphertext, additionalData []byte) ([]byte, error) {
+	c := new(chacha20poly1305)
+	copy(c.key[:], key)
+	return c.openGeneric(dst, nonce, ciphertext, additionalData)
+}
